@@ -15,6 +15,7 @@ Reading guide
 * doubles are their 64-bit patterns; "equal" is equality of patterns (Python's `==` is false on NaN).
 -/
 import PsdVerif.Lemmas.Descriptor3
+import PsdVerif.Lemmas.CodecPsd1
 
 namespace PsdVerif.C01Descriptor
 open PsdVerif PsdVerif.Codec PsdVerif.Descriptor
@@ -109,6 +110,28 @@ theorem block2_written_is_length (tb : Tables) (pad : Nat) (b : Block2) (bs : B)
     b.encW tb pad = (bs, bs.length) := by
   obtain ⟨_, rfl⟩ := Block2.enc_ok henc
   exact Block2.encW_eq tb pad b
+
+/-! ### a descriptor block as the payload of a tagged block (composition with the file skeleton of Props/C01.lean)
+
+`TaggedBlock.write` emits `data.write(f, padding = 1 if padding == 4 else 4)` inside a length block;
+`TaggedBlock.read` takes the length block and calls `kls.frombytes(raw_data)`, i.e. runs the payload reader from
+position 0 of its own `BytesIO`. In the skeleton model the payload is the byte string `t.data`. -/
+
+theorem tagged_block_descriptor_payload_roundtrip (tb : Tables) (v pad : Nat) (hp : pad = 1 ∨ pad = 2 ∨ pad = 4)
+    (t : Psd.TaggedBlock) (hwf : t.WF v) (b : Block) (hb : b.WF tb)
+    (henc : b.enc tb (if pad = 4 then 1 else 4) = .ok t.data) (pre post : B) :
+    Psd.TaggedBlock.dec v pad (pre ++ t.encT v pad ++ post) pre.length = .ok (some t, pre.length + (t.encT v pad).length) ∧
+      Block.dec tb t.data 0 = .ok (b, b.bodyLen tb) := by
+  refine ⟨Psd.TaggedBlock.dec_at hp hwf (At.intro pre _ post), ?_⟩
+  simpa using (descriptor_block_roundtrip tb _ b hb t.data [] [] henc).1
+
+theorem tagged_block_descriptor2_payload_roundtrip (tb : Tables) (v pad : Nat) (hp : pad = 1 ∨ pad = 2 ∨ pad = 4)
+    (t : Psd.TaggedBlock) (hwf : t.WF v) (b : Block2) (hb : b.WF tb)
+    (henc : b.enc tb (if pad = 4 then 1 else 4) = .ok t.data) (pre post : B) :
+    Psd.TaggedBlock.dec v pad (pre ++ t.encT v pad ++ post) pre.length = .ok (some t, pre.length + (t.encT v pad).length) ∧
+      Block2.dec tb t.data 0 = .ok (b, b.bodyLen tb) := by
+  refine ⟨Psd.TaggedBlock.dec_at hp hwf (At.intro pre _ post), ?_⟩
+  simpa using (descriptor_block2_roundtrip tb _ b hb t.data [] [] henc).1
 
 /-! ### ties to the regenerated tables -/
 
